@@ -171,8 +171,20 @@ func (g roleGetter) Get(_ context.Context, key client.ObjectKey, obj client.Obje
 }
 
 func validate(allow, req []rbacv1.PolicyRule) []roles.Rule {
-	cr := &rbacv1.ClusterRole{ObjectMeta: metav1.ObjectMeta{Name: allowRoleName}, Rules: allow}
+	// One validator instance serves every reconcile of the RBAC manager. It is
+	// first asked while the administrator's role still allows everything; the
+	// administrator then edits the role to the case's allow-list (an edit of
+	// rules changes the resourceVersion, never metadata.generation), and the
+	// same instance is asked again. Only the second answer is judged.
+	cr := &rbacv1.ClusterRole{ObjectMeta: metav1.ObjectMeta{Name: allowRoleName, ResourceVersion: "1"}, Rules: []rbacv1.PolicyRule{
+		{APIGroups: []string{"*"}, Resources: []string{"*"}, Verbs: []string{"*"}},
+		{NonResourceURLs: []string{"*"}, Verbs: []string{"*"}},
+	}}
 	v := roles.NewClusterRoleBackedValidator(roleGetter{cr: cr}, allowRoleName)
+	if _, err := v.ValidatePermissionRequests(context.Background(), req...); err != nil {
+		panic(explore.HarnessError{Msg: "validator returned an error: " + err.Error()})
+	}
+	cr.Rules, cr.ResourceVersion = allow, "2"
 	rejected, err := v.ValidatePermissionRequests(context.Background(), req...)
 	if err != nil {
 		panic(explore.HarnessError{Msg: "validator returned an error: " + err.Error()})
